@@ -1781,8 +1781,11 @@ def lt(left: Any, right: Any) -> bool:
     # only when left has a smaller length.
     return len(left) < len(right)
   elif isinstance(left, dict):
-    lkeys = list(left.keys())
-    rkeys = list(right.keys())
+    # Symbolic equality of dicts does not depend on the order of keys, so keys
+    # are compared in a canonical order (int keys first, then str keys).
+    key_order = lambda k: (_type_order(k), k)
+    lkeys = sorted(left.keys(), key=key_order)
+    rkeys = sorted(right.keys(), key=key_order)
     min_len = min(len(lkeys), len(rkeys))
     for i in range(min_len):
       kl, kr = lkeys[i], rkeys[i]
